@@ -7,6 +7,8 @@ Op `pair_eval`: a base election and a perturbation of it, both evaluated by the 
   positional rules    PreConverted(RankedToPositionalVotes(scorer), Plurality): kinds 'lift', 'new'
   'approval'          PreConverted(ApprovalToSimpleVotes(), Plurality): kinds 'approve', 'new'
   'score_sum'         ScoreVoting('sum', unscored_value=None|0|1|2|5|'min'): kinds 'raise', 'new'
+  'score_trunc'       ScoreVoting('sum'|'mean', unscored_value, min_count, truncation=count|fraction): kind 'raise' only
+                      (a new ballot changes the trimming cutoff and every mean: not an improvement of w alone)
   'bucklin'           PreferenceAddition(): kinds 'lift', 'new' (bullet ballot)
   'bucklin_whole'     PreferenceAddition(split_equal_rankings=False): the same
   'pa_list', 'pa_list_whole', 'pa_call'
@@ -50,7 +52,10 @@ REQUIRED = ['ha_house_monotone', 'ha_house_monotone_general', 'ha_vote_monotone'
             'coef_list_ok', 'preference_addition_monotone_lift', 'preference_addition_monotone_bullet',
             'preference_addition_default_monotone_lift', 'minimax_monotone_added', 'minimax_monotone_new_full', 'bucklin_new_full_witness', 'bucklin_default_new_full_witness',
             'copeland_new_full_witness', 'minimax_wv_new_full_witness', 'schulze_new_full_witness']
-UNPROVED = ['approval_split_monotone (ApprovalToSimpleVotes(split=True), satisfaction approval: modelled as evalApprovalSplit, checked by '
+UNPROVED = ['score_truncated_monotone_raise (ScoreVoting with truncation / min_count / mean: evaluated by the {score: count} table '
+            'model of C12, checked by correspondence and oracle on every raise; the theorems cover the plain sum with any '
+            'numeric unscored value)',
+            'approval_split_monotone (ApprovalToSimpleVotes(split=True), satisfaction approval: modelled as evalApprovalSplit, checked by '
             'correspondence and oracle; the approval theorems cover split=False)',
             "score_sum_monotone for unscored_value='min' (modelled through C12's {score: count} table model, checked by "
             'correspondence and oracle; the theorems cover unscored_value None and every numeric value)',
@@ -69,7 +74,7 @@ DEC_OK = ['plurality', 'approval', 'borda', 'modified_borda', 'fixed_top', 'cope
 PA_RULES = ['pa_list', 'pa_list_whole', 'pa_call']
 PA_LISTS = [['1', '1/2', '1/3'], ['1', '1', '1/2'], ['1'], ['1', '1/2'], ['2', '1', '1', '1/2'], ['1', '0'], ['1', '3/4', '1/2', '1/4']]
 RANKED_RULES = POSITIONAL + BULLET_RULES + PA_RULES
-ALL_RULES = ['ha', 'plurality'] + POSITIONAL + ['approval', 'score_sum'] + BULLET_RULES
+ALL_RULES = ['ha', 'plurality'] + POSITIONAL + ['approval', 'score_sum', 'score_trunc'] + BULLET_RULES
 
 
 # ------------------------------------------------------------------------------------------------
@@ -101,7 +106,7 @@ def py_profile(rule, prof, wtype=None, stype=None):
     elif rule == 'approval':
         for b, s in prof:
             out[frozenset(NAMES.n(c) for c in b['set'])] = _num(s, wtype)
-    elif rule == 'score_sum':
+    elif rule in ('score_sum', 'score_trunc'):
         for b, s in prof:
             out[frozenset((NAMES.n(c), _num(x, stype)) for c, x in b['set'])] = _num(s)
     else:
@@ -320,6 +325,43 @@ def _score_fill(prof, c, param):
     return Fraction(param)
 
 
+def ref_score_trunc(param, prof):
+    """trimmed sum / trimmed mean of every candidate, from the definition: the scores of a candidate as a multiset (a
+    ballot that does not score it counts as the unscored value, if one is set), fewer than min_count scores -> min_count
+    times the bottom value 0, the `cutoff` lowest and the `cutoff` highest removed, then sum or exact mean"""
+    n_votes = sum(Fraction(s) for _, s in prof)
+    cs = []
+    for b, _ in prof:
+        for c, _ in b['set']:
+            if c not in cs:
+                cs.append(c)
+    tr = param['trunc']
+    out = {}
+    for c in cs:
+        vals = []
+        for b, s in prof:
+            d = dict((c2, Fraction(x)) for c2, x in b['set'])
+            if c in d:
+                vals += [d[c]] * int(Fraction(s))
+        n_scores = len(vals)
+        if n_scores < param['min_count']:
+            vals = [Fraction(0)] * param['min_count']
+        else:
+            if param['unscored'] is not None:
+                vals += [Fraction(param['unscored'])] * int(n_votes - n_scores)
+            if tr is not None:
+                cutoff = tr['count'] if 'count' in tr else int((n_votes if n_votes else n_scores) * Fraction(tr['frac']))
+                vals.sort()
+                vals = vals[cutoff:len(vals) - cutoff] if cutoff > 0 and 2 * cutoff <= len(vals) else ([] if cutoff > 0 else vals)
+        if param['fn'] == 'sum':
+            out[c] = sum(vals, Fraction(0))
+        else:
+            if not vals:
+                return None
+            out[c] = sum(vals, Fraction(0)) / len(vals)
+    return out
+
+
 def ref_scores(rule, param, prof):
     """reference totals of the additive rules: candidate id -> Fraction (None when the rule refuses)"""
     sc = {}
@@ -332,6 +374,8 @@ def ref_scores(rule, param, prof):
             for c in b['set']:
                 sc[c] = sc.get(c, 0) + (Fraction(s) / len(b['set']) if param else Fraction(s))
         return sc
+    if rule == 'score_trunc':
+        return ref_score_trunc(param, prof)
     if rule == 'score_sum':
         for b, s in prof:
             for c, x in b['set']:
@@ -487,6 +531,11 @@ def _evaluator(rule, param, stype=None):
     if rule == 'score_sum':
         un = None if param is None else ('min' if param == 'min' else _num(param, stype))
         return vcard.ScoreVoting('sum', unscored_value=un)
+    if rule == 'score_trunc':
+        tr = param['trunc']
+        tr = 0 if tr is None else (tr['count'] if 'count' in tr else Fraction(tr['frac']))
+        return vcard.ScoreVoting(param['fn'], unscored_value=None if param['unscored'] is None else _num(param['unscored']),
+                                 min_count=param['min_count'], truncation=tr, bottom_value=0)
     if rule == 'bucklin':
         return vseq.PreferenceAddition()
     if rule == 'bucklin_whole':
@@ -947,6 +996,101 @@ def gen_pa(rng, n_prof):
                 yield c
 
 
+def _w_table(prof, w):
+    t = {}
+    for b, s in prof:
+        for c, x in b['set']:
+            if c == w:
+                t[Fraction(x)] = t.get(Fraction(x), 0) + int(Fraction(s))
+    return t
+
+
+def score_trunc_moves(param, base, rng=None, per_cand=10):
+    """score raises under ScoreVoting(function, unscored_value, min_count, truncation) for EVERY candidate (the premise is
+    decided on the implementation's base result).  A candidate the ballot does not score may be given a score only where
+    that is an improvement by definition: at least the unscored value when one is set; any non-negative score under the
+    plain sum; never under the mean without an unscored value (the ballot is then simply not counted for it)."""
+    out = []
+    ref = ref_scores('score_trunc', param, base)
+    ref_w = None
+    if ref:
+        m = max(ref.values())
+        top = [c for c, v in ref.items() if v == m]
+        ref_w = top[0] if len(top) == 1 else None
+    n_votes = sum(Fraction(s) for _, s in base)
+    tr = param['trunc']
+    cutoff = 0 if tr is None else (tr['count'] if 'count' in tr else int(n_votes * Fraction(tr['frac'])))
+    cs = sorted({c for b, _ in base for c, _ in b['set']})
+    for w in cs:
+        cases = []
+        before = _w_table(base, w)
+        for bi, (b, s) in enumerate(base):
+            cur = dict((c, int(x)) for c, x in b['set'])
+            if w in cur:
+                targets = list(range(cur[w] + 1, 8))
+            elif param['unscored'] is not None:
+                targets = list(range(int(Fraction(param['unscored'])), 7))
+            elif param['fn'] == 'sum':
+                targets = list(range(0, 6))
+            else:
+                targets = []
+            for t in targets:
+                nb = {'set': sorted([c, str(t if c == w else x)] for c, x in list(cur.items()) + ([(w, t)] if w not in cur else []))}
+                tags = ['score_trunc:raise', f"score_trunc:{param['fn']}", f"score_trunc:trunc_{'none' if tr is None else list(tr)[0]}"]
+                if w not in cur:
+                    tags.append('score_trunc:raise_unscored')
+                if param['unscored'] is not None:
+                    tags.append('score_trunc:unscored_value')
+                if param['min_count']:
+                    tags.append('score_trunc:min_count')
+                if cutoff > 0 and before and t > max(before) and 1 <= cutoff:
+                    tags.append('score:truncation_raise_creates_new_extreme')
+                if cutoff > 0 and before:
+                    lo = min(before)
+                    if before[lo] < cutoff:
+                        tags.append('score:truncation_removes_group_and_part')
+                cases.append(_mk('score_trunc', param, base, replace_unit(base, bi, nb), w, 'raise',
+                                 {'kind': 'raise', 'ballot': bi, 'score': str(t)}, tags))
+        if rng is not None and len(cases) > per_cand:
+            keep = [c for c in cases if 'score:truncation_raise_creates_new_extreme' in c['_tags']]
+            other = [c for c in cases if c not in keep]
+            keep = rng.sample(keep, min(len(keep), per_cand // 2))
+            cases = keep + rng.sample(other, min(len(other), per_cand - len(keep)))
+        if w == ref_w:
+            _tag_premise(cases, 'score_trunc')
+        out += cases
+    return out
+
+
+def _score_trunc_param(rng):
+    return {'fn': rng.choice(['sum', 'mean']),
+            'unscored': rng.choice([None, None, '0', '2']),
+            'min_count': rng.choice([0, 0, 3]),
+            'trunc': rng.choice([None, {'count': 1}, {'count': 2}, {'count': 2}, {'count': 3}, {'frac': '1/10'}, {'frac': '1/5'}])}
+
+
+def gen_score_trunc(rng, n_prof):
+    for _ in range(n_prof):
+        m = rng.randint(2, 3)
+        param = _score_trunc_param(rng)
+        base = []
+        total = 0
+        target = rng.randint(10, 20)
+        while total < target:
+            k = m if (param['unscored'] is None and rng.random() < 0.7) else rng.randint(1, m)
+            b = {'set': sorted([c, str(rng.choice([0, 1, 1, 2, 3, 4, 4, 5]))] for c in rng.sample(range(m), k))}
+            wgt = min(rng.choice([1, 1, 2, 3, 4, 6]), target - total)
+            total += wgt
+            for e in base:
+                if e[0] == b:
+                    e[1] = str(int(e[1]) + wgt)
+                    break
+            else:
+                base.append([b, str(wgt)])
+        for c in score_trunc_moves(param, base, rng):
+            yield c
+
+
 def gen_plurality(rng, n_prof):
     for _ in range(n_prof):
         m = rng.randint(1, 5)
@@ -1318,7 +1462,10 @@ def directed_cases():
     # the wider reading of the new ballot (w first, others below): minimal cases in which the RULE ITSELF lets w lose
     for rule, param, base, w, nb in NEW_FULL_WITNESSES:
         c = _mk(rule, param, base, add_ballot(base, nb), w, 'new_full', {'kind': 'new', 'ballot': nb},
-                [f'{rule}:new_full', f'{rule}:premise', 'directed', 'new_full_rule_level_failure', 'bucklin:lift_out_of_shared3', 'bucklin_coef:list_shorter_than_ballot',
+                [f'{rule}:new_full', f'{rule}:premise', 'directed', 'new_full_rule_level_failure', 'bucklin:lift_out_of_shared3', 'score:truncation_raise_creates_new_extreme', 'score:truncation_removes_group_and_part', 'score_trunc:raise',
+                      'score_trunc:sum', 'score_trunc:mean', 'score_trunc:trunc_count', 'score_trunc:trunc_frac',
+                      'score_trunc:trunc_none', 'score_trunc:unscored_value', 'score_trunc:min_count', 'score_trunc:raise_unscored',
+                      'score_trunc:premise', 'bucklin_coef:list_shorter_than_ballot',
                       'bucklin_coef:lift_beyond_list_end', 'bucklin_coef:list_covers_ballots', 'bucklin_coef:callable',
                       'names:int0', 'names:empty0', 'names:person', 'state:shared', 'state:shared_rev', 'weights:dec', 'weights:frac',
                       'score_sum:scores_half', 'score_sum:scores_neg', 'score_sum:scores_dec7', 'score_sum:stype_dec',
@@ -1365,6 +1512,21 @@ def directed_cases():
             for c in ranked_moves(rule, param, base, c2):
                 c['_tags'] += ['directed'] + ([f'{rule}:premise'] if c2 == rw else [])
                 out.append(c)
+    # trimmed score sums / means (ScoreVoting truncation): W (=0) scored 1 by ten voters and 4 by four, R (=1) scored 1 by seven
+    # and 2 by seven, truncation 2: trimmed sums 16 against 15; a raise of W from 4 to 5 creates a new highest score group
+    base = [[{'set': [[0, '1'], [1, '1']]}, '7'], [{'set': [[0, '1'], [1, '2']]}, '3'], [{'set': [[0, '4'], [1, '2']]}, '4']]
+    for fn in ('sum', 'mean'):
+        for tr in ({'count': 2}, {'count': 1}, {'frac': '1/5'}, {'count': 3}):
+            for c in score_trunc_moves({'fn': fn, 'unscored': None, 'min_count': 0, 'trunc': tr}, base):
+                c['_tags'].append('directed')
+                out.append(c)
+    base = [[{'set': [[0, '3']]}, '6'], [{'set': [[0, '5'], [1, '4']]}, '5'], [{'set': [[1, '2']]}, '3'], [{'set': [[1, '5'], [2, '5']]}, '2']]
+    for param in ({'fn': 'sum', 'unscored': '2', 'min_count': 3, 'trunc': {'count': 2}},
+                  {'fn': 'mean', 'unscored': '0', 'min_count': 3, 'trunc': {'frac': '1/10'}},
+                  {'fn': 'mean', 'unscored': None, 'min_count': 3, 'trunc': None}):
+        for c in score_trunc_moves(param, base):
+            c['_tags'].append('directed')
+            out.append(c)
     # highest averages: exact quotient tie at the last seat, cap binding, previous gains
     cfg = {'divisor': 'd_hondt', 'first_coef': None, 'votes': [[0, '6'], [1, '3'], [2, '3']], 'n': 3, 'prev': [], 'max': []}
     out += [dict(c, _tags=c['_tags'] + ['directed', 'ha:tie_in_base']) for c in ha_pairs(cfg, [])]
@@ -1573,6 +1735,8 @@ def _generate(rng, tier):
         yield c
     for c in gen_score_typed(rng, 25 if quick else 500):
         yield c
+    for c in gen_score_trunc(rng, 60 if quick else 1200):
+        yield c
     if not quick:
         for c in exhaustive_cases():
             yield c
@@ -1610,7 +1774,7 @@ def exhaustive_cases():
                     yield c
 
 
-NAME_MODES = ['str', 'int0', 'empty0', 'person']
+NAME_MODES = ['str', 'int0', 'empty0', 'person', 'tuple']
 REQUIRED_COUNTERS = (['ha:house', 'ha:votes', 'ha:caps', 'ha:prev_gains', 'ha:tie_in_base', 'plurality:new',
                       'plurality:switch', 'plurality:premise', 'approval:approve', 'approval:new', 'approval:premise',
                       'score_sum:raise', 'score_sum:new', 'score_sum:premise', 'score_sum:raise_to_unscored_value',
